@@ -75,10 +75,38 @@ class FileCache:
         with open(os.path.join(self.root_path, file_name), 'wb') as f:
             f.write(new_file_contents)
             if use_fsync:
+                # the data is still in the file object's buffer: hand it to the OS before syncing
+                f.flush()
                 os.fsync(f.fileno())
+        if use_fsync:
+            # the file's directory entry (and that of any directory just created) must be durable too
+            self._fsync_dirs(write_path)
         contents, memory_usage = self.process_contents(new_file_contents)
         self.update_file_futures_and_memory(file_name, memory_usage=memory_usage)
         return contents
+
+    def _fsync_dirs(self, path):
+        """
+        Sync the directory "path" and its parents up to the root path, making their entries durable.
+
+        Args:
+        - path (str): the directory that holds the file just written
+
+        Returns:
+        None
+        """
+        root = os.path.normpath(self.root_path)
+        path = os.path.normpath(path)
+        while True:
+            fd = os.open(path, os.O_RDONLY)
+            try:
+                os.fsync(fd)
+            finally:
+                os.close(fd)
+            parent = os.path.dirname(path)
+            if path == root or parent == path or not path.startswith(root):
+                break
+            path = parent
 
     def update_file_access_time(self, file_name):
         """
